@@ -91,6 +91,7 @@ type pathState struct {
 	obs      []observation
 	covers   map[string]bool
 	unwind   int
+	unwindViolates bool // exceeding the bound is the violation "terminates"
 	instrs   int64
 	mapOrderAll bool
 	newDecisions int
